@@ -476,7 +476,7 @@ theorem machine_replicas_agree (σ₁ σ₂ : Sched) (evs₁ evs₂ : List (Ev O
   rw [unbond_order_from_store.1, exec_schedule_independent σ₁ σ₂ s op]
 
 /-- a tally loop that is left early (`accumulate+exit`) depends on the iteration order: the reviewed classes rightly do not
-admit it -/
+accept it -/
 theorem early_exit_tally_schedule_dependent :
     ∃ (l₁ l₂ : List Vec5), l₁.Perm l₂ ∧ tallyUntil 5 (0, 0, 0, 0, 0) l₁ ≠ tallyUntil 5 (0, 0, 0, 0, 0) l₂ :=
   ⟨[(6, 0, 0, 0, 6), (0, 0, 3, 0, 3)], [(0, 0, 3, 0, 3), (6, 0, 0, 0, 6)], Perm.swap _ _ _, by decide⟩
